@@ -184,7 +184,7 @@ SNIPPETS = [
     'import os.path\nclass A(os): pass\nA.path\nA().path\nclass M: pass\nclass N(M()): pass\nN().x\nN.x\nclass L(len, 1, "s", None): pass\nL.x\nL().x\n',
     # deep expression / statement nesting (the parser accepts it)
     'x = ' + ' + '.join(['1'] * 400) + '\nx\n',
-    'if a:\n    pass\n' + ''.join('elif a:\n    pass\n' for _ in range(400)) + 'a\n',
+    'if a:\n    pass\n' + ''.join('elif a:\n    pass\n' for _ in range(250)) + 'a\n',
     'x = ' + '[' * 60 + '1' + ']' * 60 + '\ny = ' + 'f(' * 80 + '0' + ')' * 80 + '\nx\ny\n',
     # many consecutive regions in one scope (names are resolved region by region)
     'c = 0\n' + ''.join('if c:\n    v%d = %d\n' % (i, i) for i in range(40)) + 'v39\nc\n',
